@@ -186,7 +186,7 @@ func checkC07(e *Env) {
 				return
 			}
 			raw, _ := os.ReadFile(trace)
-			bufs := parseGetrandom(string(raw))
+			bufs, unparsed := parseGetrandom(string(raw))
 			var results []plan.Res
 			for _, line := range bytes.Split(out.Bytes(), []byte{'\n'}) {
 				var r plan.Res
@@ -219,6 +219,13 @@ func checkC07(e *Env) {
 						next = j + 1
 						break
 					}
+				}
+				if !found && unparsed > 0 {
+					// some traced calls could not be parsed back: the layer cannot decide for this process
+					smu.Lock()
+					failed = fmt.Sprintf("inconclusive: %d traced getrandom calls could not be parsed", unparsed)
+					smu.Unlock()
+					return
 				}
 				if !found {
 					e.Violate(&Violation{What: fmt.Sprintf("NewMnemonic(%d, %s) in an un-hooked process encodes %x, which no getrandom(2) call of the process returned (%d calls traced): the mnemonic is not drawn from the OS CSPRNG", ops[i].N, ref.Names[ops[i].L], ent, len(bufs)),
@@ -304,11 +311,16 @@ func checkC07(e *Env) {
 	})
 }
 
-var getrandomRe = regexp.MustCompile(`getrandom\("((?:\\x[0-9a-f]{2})*)"(\.\.\.)?, (\d+), [^)]*\)\s+= (\d+)`)
+// a completed call is either on one line or, when another thread's syscall
+// was logged in between, split into "<unfinished ...>" and "<... getrandom resumed>"
+var getrandomRe = regexp.MustCompile(`(?:getrandom\(|<\.\.\. getrandom resumed>)"((?:\\x[0-9a-f]{2})*)"(\.\.\.)?, (\d+), [^)]*\)\s+= (\d+)`)
+var getrandomStartRe = regexp.MustCompile(`getrandom\(`)
 
-// parseGetrandom extracts the buffers returned by getrandom(2) from strace -xx output.
-func parseGetrandom(trace string) [][]byte {
-	var out [][]byte
+// parseGetrandom extracts the buffers returned by getrandom(2) from strace -xx
+// output. unparsed is the number of calls that were started but whose buffer
+// could not be recovered (truncated, failed or garbled lines): while it is
+// non-zero an unmatched sentence proves nothing.
+func parseGetrandom(trace string) (out [][]byte, unparsed int) {
 	for _, m := range getrandomRe.FindAllStringSubmatch(trace, -1) {
 		if m[2] != "" {
 			continue // truncated by -s
@@ -320,5 +332,9 @@ func parseGetrandom(trace string) [][]byte {
 			out = append(out, b)
 		}
 	}
-	return out
+	unparsed = len(getrandomStartRe.FindAllString(trace, -1)) - len(out)
+	if unparsed < 0 {
+		unparsed = 0
+	}
+	return out, unparsed
 }
